@@ -463,15 +463,15 @@ def report(objs, uses):
 def gen_globaluses(ctx):
     build = ctx.build
     cache = os.path.join(build, ".globaluses.%s.json" % vlib_hash())
-    if os.path.exists(cache): objs_l, uses, asm_refs, ntu = json.load(open(cache))
+    if os.path.exists(cache): objs_l, uses, asm_refs, ntu, ext = json.load(open(cache))
     else:
         objs, uses, asm_refs, ntu = analyse(build)
-        objs_l = sorted([k[1], k[0]] for k in objs)
-        json.dump([objs_l, uses, asm_refs, ntu], open(cache, "w"))
+        objs_l = sorted([k[1], k[0]] for k in objs); ext = analyse.external_callees
+        json.dump([objs_l, uses, asm_refs, ntu, ext], open(cache, "w"))
     viol = violations(build, objs_l, uses)
     ctx.globaluses_violations = viol
     for v in viol: print("DETAIL: C15 static scan: " + v[:900])
-    ctx.globaluses_report = dict(external_or_unfollowed_callees_behind_const_parameters=getattr(analyse, "external_callees", None), translation_units=ntu, uses=len(uses), per_object=report(None, uses), asm_members_with_relro_tables=asm_refs)
+    ctx.globaluses_report = dict(external_or_unfollowed_callees_behind_const_parameters=ext, translation_units=ntu, uses=len(uses), per_object=report(None, uses), asm_members_with_relro_tables=asm_refs)
     rows = ['  { obj := %s, objFile := %s, file := %s, func := %s, line := %d, kind := %s, via := %s }' % (
         lean_str(u["obj"]), lean_str(u["objmember"]), lean_str(u["file"]), lean_str(u["func"]), u["line"], lean_str(u["kind"]), lean_str(u["via"])) for u in uses]
     txt = ("-- GENERATED by tools/gen_globaluses.py (clang AST of every translation unit that references a writable static object) — do not edit.\n"
